@@ -188,7 +188,19 @@ func c02Concretise(c *c02Case) (val interface{}, exact *big.Float, isNaN bool, i
 		if c.D == 0 {
 			return "1.5", big.NewFloat(1.5), false, 0
 		}
-		return "1e3", big.NewFloat(1000), false, 0
+		if c.D == 1 {
+			return "1e3", big.NewFloat(1000), false, 0
+		}
+		// a hair above / below the midpoint of two adjacent float32 values (2^24+1, 2^24+3, 1+2^-24) and of two adjacent
+		// float64 values (2^53+1): parsing to float64 first and narrowing afterwards rounds twice and picks the wrong neighbour
+		txt := []string{"16777217.0000000000001", "16777216.9999999999999", "16777219.0000000000001", "16777218.9999999999999",
+			"1.0000000596046447753906250000000001", "1.0000000596046447753906249999999999",
+			"9007199254740993.0000000000000001", "9007199254740992.9999999999999999"}[c.D-2]
+		bf, _, err := big.ParseFloat(txt, 10, 300, big.ToNearestEven)
+		if err != nil {
+			panic(err)
+		}
+		return txt, bf, false, 0
 	case "strbad":
 		if c.D == 0 {
 			return "abc", nil, false, 0
